@@ -18,7 +18,7 @@ for spec in "$@"; do
   if ! git -C $ER apply /tmp/mutants/$ID/patch$N.diff 2>>/tmp/mutants/eval.log; then echo "APPLY FAILED $ID-$N" >> /tmp/mutants/eval.log; continue; fi
   for c in "$@"; do
     echo "=== $c" >> /tmp/mutants/eval.log
-    (cd $EV && VERIF_BUDGET_S=${EVAL_BUDGET_S:-45} ./check $c --tier quick 2>&1 | grep -E "^VIOLATION|^  rule|^KNOWN|^C[0-9]+:|harness error" | cut -c1-260 | head -14) >> /tmp/mutants/eval.log
+    (cd $EV && VERIF_BUDGET_S=${EVAL_BUDGET_S:-45} timeout 900 ./check $c --tier quick 2>&1 | grep -E "^VIOLATION|^  rule|^KNOWN|^C[0-9]+:|harness error" | cut -c1-260 | head -14) >> /tmp/mutants/eval.log
     find $EV/replays -name '*.json' -delete
   done
 done
